@@ -49,7 +49,7 @@ def positions(spec, cn, rng, n_extra=4):
     for _ in range(n_extra):
         out.append(("random", g + rng.randrange(1, N * 64) * d0 / 64))
     if g < 0.0 < G:
-        out.append(("zero", 0.0))        # the coordinate 0 (falsy as an option value)
+        out.insert(1, ("zero", 0.0))     # the coordinate 0 (falsy as an option value); ahead of any face that lies there
     seen, uniq = set(), []
     for nm, p in out:
         if p not in seen:
@@ -392,8 +392,8 @@ def run(ctx, rep, model=True):
         for cn in range(3):
             plist = positions(spec, cn, ctx.rng)
             if ctx.quick and len(plist) > 26:
-                head = plist[:7] + [x for x in plist[7:] if x[0] == "zero"]      # the coordinate 0 is always tried where the domain holds it
-                rest = [x for x in plist[7:] if x[0] != "zero"]
+                head = plist[:8]
+                rest = plist[8:]
                 ctx.rng.shuffle(rest)
                 plist = head + rest[:19]
             for j, (nm, pos) in enumerate(plist):
